@@ -12,7 +12,12 @@ use atomic_refcell::{AtomicRef, AtomicRefCell, AtomicRefMut};
 use crossbeam::deque::{self, Stealer};
 use crossbeam::queue::ArrayQueue;
 use std::sync::atomic::Ordering;
+#[cfg(not(mmtk_verif))]
 use std::sync::{Arc, Mutex};
+#[cfg(mmtk_verif)]
+use crate::util::verif::sync::Mutex;
+#[cfg(mmtk_verif)]
+use std::sync::Arc;
 
 /// Represents the ID of a GC worker thread.
 pub type ThreadId = usize;
